@@ -3,6 +3,7 @@ import ast
 from typing import Dict, List, Optional, Set, Tuple
 
 from ..model import AnalysisError, Program
+from .. import guards as G
 from ..guards import norm, call_name, const_str
 from ..facts import Fn, CORE, assigned_from
 from ..relang import subset, equal
@@ -67,9 +68,9 @@ def r05_4_scalars_written(ctx):
     r.done()
 
 
-def r05_3_pairs(ctx):
+def r05_3_pairs(ctx, rid='R05.3'):
     P = ctx.P
-    r = ctx.rule('R05.3', 'representer/constructor pairs invert each other structurally (enum by name, string-like by str(), Path '
+    r = ctx.rule(rid, 'representer/constructor pairs invert each other structurally (enum by name, string-like by str(), Path '
                           'by str()) and Path is registered on both sides', floor=7)
     # enum
     er = fn(P, 'yatiml.representers:EnumRepresenter.__call__')
@@ -185,4 +186,50 @@ def r05_7_defaults(ctx, rid='R05.7'):
             'class_subobjects and defaulted_attributes disagree on which parameters are optional: %s vs %s' % (fa, fb))
     r.check(ok, 'every defaulted parameter is recorded with its default, unconditionally', b.key('defaults-recorded'), b.loc(),
             'defaulted_attributes does not record every defaulted parameter')
+    r.done()
+
+
+def _hook_protocol(f: Fn, hook: str) -> Tuple[Optional[str], Optional[str], Optional[str], str]:
+    """(own-definition test kind, what the ancestor loop ranges over, ancestor filter kind, detail) of a hook-applying function,
+    with the class parameter written as CLS"""
+    calls = [c for c in f.walk() if isinstance(c, ast.Call) and isinstance(c.func, ast.Attribute) and c.func.attr == hook]
+    if len(calls) != 1:
+        return None, None, None, '%d calls of %s' % (len(calls), hook)
+    c = calls[0]
+    cls_ = norm(c.func.value)
+    own = None
+    for g, p in f.guards(c):
+        t, pol = G.canon_atom(g, p)
+        if t == "'%s' in %s.__dict__" % (hook, cls_) and pol:
+            own = 'own-dict'
+        elif hook in t and pol and own is None:
+            own = 'other:' + t.replace(cls_, 'CLS')
+    loops = [n for n in f.walk() if isinstance(n, ast.For) and any(
+        isinstance(x, ast.Call) and isinstance(x.func, ast.Attribute) and x.func.attr == f.fi.name.lstrip('_') or
+        isinstance(x, ast.Call) and isinstance(x.func, ast.Attribute) and f.fi.name.endswith(x.func.attr.lstrip('_')) for x in ast.walk(n))]
+    rng = flt = None
+    for lo in loops:
+        rng = f.alpha.text(lo.iter).replace(cls_, 'CLS')
+        rec = [x for x in ast.walk(lo) if isinstance(x, ast.Call) and isinstance(x.func, ast.Attribute)
+               and f.fi.name.endswith(x.func.attr.lstrip('_'))]
+        for x in rec:
+            gs = [G.canon_atom(b.ast, b.pol) for b in f.cfg.guard_nodes(f.nid(x)) if any(y is lo for y in S._ancestors_list(b.ast))]
+            flt = 'registered-only' if len(gs) == 1 and gs[0][1] and ' in ' in gs[0][0] else 'other:%s' % gs
+    return own, rng, flt, cls_
+
+
+def r05_8_hook_symmetry(ctx, rid='R05.8'):
+    P = ctx.P
+    r = ctx.rule(rid, 'sweeten on dump and savorize on load are applied by the same protocol (own definition only, registered direct '
+                      'bases first), so that inverse hooks are applied the same number of times on both sides', floor=2)
+    a = fn(P, 'yatiml.loader:Loader.__savorize')
+    b = fn(P, 'yatiml.representers:Representer.__sweeten')
+    pa = _hook_protocol(a, '_yatiml_savorize')
+    pb = _hook_protocol(b, '_yatiml_sweeten')
+    r.check(pa[0] == 'own-dict' and pb[0] == 'own-dict', 'both hooks are looked up in the class\'s own __dict__',
+            'yatiml:hook-symmetry:own-definition', b.loc(), 'savorize is applied under `%s`, sweeten under `%s`: a subclass that inherits a '
+            'non-idempotent sweeten/savorize pair gets one of them applied twice and load(dumps(x)) != x' % (pa[0], pb[0]))
+    r.check(pa[1] == pb[1] == 'CLS.__bases__' and pa[2] == pb[2] == 'registered-only', 'both recurse into the registered direct bases first',
+            'yatiml:hook-symmetry:ancestors', b.loc(), 'savorize walks %s (%s), sweeten walks %s (%s): ancestors\' hooks are applied a different '
+            'number of times on the two sides' % (pa[1], pa[2], pb[1], pb[2]))
     r.done()
